@@ -5,26 +5,164 @@ import SymbolVerif.Proofs.Codec.DedEnc
 namespace SymbolVerif.Codec
 open SymbolVerif.Bytes
 
-theorem admUnionsFrom_of_early (r : Rec) (d : StructDef) (vs : List (String × Val)) (fs : List Field) :
-    ∀ pre, earlyFrom pre fs = true → admUnionsFrom r d vs pre fs = true := by
-  induction fs with
-  | nil => intro _ _; rfl
-  | cons f rest ih =>
-    intro pre h
-    simp only [earlyFrom, Bool.and_eq_true] at h
-    simp only [admUnionsFrom, Bool.and_eq_true]
-    refine ⟨?_, ih _ h.2⟩
-    unfold admUnion unionHead
-    cases hc : f.cond with
-    | none => rfl
-    | some c =>
-      have := h.1
-      simp only [hc] at this
-      simp [this]
+theorem mem_of_mem_takeWhile' {α : Type} {p : α → Bool} {l : List α} {x : α} (h : x ∈ l.takeWhile p) : x ∈ l := by
+  induction l with
+  | nil => cases h
+  | cons a l ih =>
+    rw [List.takeWhile_cons] at h
+    split at h
+    · rcases List.mem_cons.mp h with rfl | h'
+      · simp
+      · exact List.mem_cons_of_mem _ (ih h')
+    · cases h
+
+theorem unionHead_some {pre : List Field} {f : Field} {dn : String} (h : unionHead pre f = some dn) :
+    ∃ c, f.cond = some c ∧ c.field = dn := by
+  unfold unionHead at h
+  cases hc : f.cond with
+  | none => simp [hc] at h
+  | some c =>
+    simp only [hc] at h
+    by_cases h1 : (lookupField pre c.field).isSome = true
+    · simp [h1] at h
+    · cases hgl : pre.getLast? with
+      | none =>
+        simp [h1, hgl] at h
+        exact ⟨c, rfl, h⟩
+      | some gl =>
+        by_cases h2 : condOn c.field gl = true
+        · simp [h1, hgl, h2] at h
+        · simp [h1, hgl, h2] at h
+          exact ⟨c, rfl, h⟩
+
+theorem count_one (a : Int) (G : List Field) (hd : distinctInts (G.map condValue) = true)
+    (ha : G.any (fun m => condValue m == a) = true) : G.countP (fun m => condValue m == a) = 1 := by
+  induction G with
+  | nil => simp at ha
+  | cons m ms ih =>
+    simp only [List.map_cons, distinctInts, Bool.and_eq_true, Bool.not_eq_true', List.contains_eq_mem,
+      decide_eq_false_iff_not] at hd
+    rw [List.countP_cons]
+    by_cases hm : condValue m = a
+    · have hzero : ms.countP (fun m => condValue m == a) = 0 := by
+        rw [List.countP_eq_zero]
+        intro x hx hxa
+        simp only [beq_iff_eq] at hxa
+        exact hd.1 (by rw [hm, ← hxa]; exact List.mem_map_of_mem (f := condValue) hx)
+      simp [hm, hzero]
+    · have hne : (condValue m == a) = false := by simp [hm]
+      simp only [List.any_cons, hne, Bool.false_or] at ha
+      simp [hne, ih hd.2 ha]
 
 section
 variable {S : Schema} {T : String → Bytes → Bytes} {g fa : String → Val → Bool} {r : Rec}
 variable {name : String} {d : StructDef} {E vs : List (String × Val)}
+
+/-- of a union laid out before its discriminant exactly one member is present in a decoded object -/
+theorem DedStruct.union_ok (h : DedStruct S T g fa r name d E vs) {pre rest : List Field} {f : Field}
+    (hsplit : d.fields = pre ++ f :: rest) (hw : wfdUnion S pre f rest = true) :
+    admUnion r d vs pre f rest = true := by
+  unfold admUnion
+  unfold wfdUnion at hw
+  cases huh : unionHead pre f with
+  | none => rfl
+  | some dn =>
+    simp only [huh, Bool.and_eq_true] at hw ⊢
+    obtain ⟨⟨hall, hdist⟩, hdnf⟩ := hw
+    have hfd : f ∈ d.fields := by rw [hsplit]; simp
+    -- `f` is guarded by a condition on `dn`
+    obtain ⟨c, hc, hcf⟩ := unionHead_some huh
+    -- every member of the union
+    have hG : ∀ m ∈ f :: rest.takeWhile (condOn dn), m ∈ d.fields ∧ ∃ cm, m.cond = some cm ∧ cm.field = dn := by
+      intro m hm
+      rcases List.mem_cons.mp hm with rfl | hm
+      · exact ⟨hfd, c, hc, hcf⟩
+      · refine ⟨by rw [hsplit]; exact List.mem_append_right _ (List.mem_cons_of_mem _ (mem_of_mem_takeWhile' hm)), ?_⟩
+        have := mem_takeWhile_imp' hm
+        unfold condOn at this
+        cases hcm : m.cond with
+        | none => simp [hcm] at this
+        | some cm => exact ⟨cm, rfl, by simpa [hcm] using this⟩
+    -- the discriminant and its value
+    obtain ⟨vf, -, hsf⟩ := h.spec f hfd
+    simp only [hc] at hsf
+    obtain ⟨a, -, ha, -, -⟩ := hsf
+    obtain ⟨gk, hl, hgd, hgn, hgc, -, hEg, -⟩ := h.disc hfd hc ha
+    rw [hcf] at ha hl hgn
+    cases hlr : lookupField rest dn with
+    | none => simp [hlr] at hdnf
+    | some dnf =>
+      simp only [hlr] at hdnf
+      obtain ⟨hdm, hdn'⟩ := lookupField_some hlr
+      have hdd : dnf ∈ d.fields := by rw [hsplit]; simp [hdm]
+      have : dnf = gk := eq_of_name_eq h.wf.names hdd hgd (by rw [hdn', hgn])
+      subst this
+      cases hkd : dnf.kind with
+      | ref te lim =>
+        simp only [hkd] at hdnf
+        cases hfe : S.find te with
+        | none => simp [hfe] at hdnf
+        | some td =>
+          cases td with
+          | enum w s bw ms =>
+            cases bw with
+            | true => simp [hfe] at hdnf
+            | false =>
+              simp only [hfe, List.all_eq_true] at hdnf
+              -- the discriminant value is a member of the enum
+              obtain ⟨vd, hvd, hsd⟩ := h.spec dnf hdd
+              simp only [hgc] at hsd
+              unfold PaySpec at hsd
+              simp only [hkd] at hsd
+              rw [hEg] at hvd
+              simp only [Option.some.injEq] at hvd
+              subst hvd
+              obtain ⟨view, hview⟩ := hsd
+              obtain ⟨i, hi, hadm⟩ := h.ctx.enumOk te view _ w s false ms hview hfe
+              simp only [Val.int.injEq] at hi
+              subst hi
+              unfold enumAdmits at hadm
+              simp only [Bool.false_eq_true, if_false, List.any_eq_true, beq_iff_eq] at hadm
+              obtain ⟨nv, hnv, hnva⟩ := hadm
+              have hany : (f :: rest.takeWhile (condOn dn)).any (fun m => condValue m == a) = true := by
+                have := hdnf nv hnv
+                rw [hnva] at this
+                exact this
+              -- presence of a member is `its value == a`
+              have hpres : ∀ m ∈ f :: rest.takeWhile (condOn dn), isPresent r d vs m = (condValue m == a) := by
+                intro m hm
+                obtain ⟨hmd, cm, hcm, hcmf⟩ := hG m hm
+                have hallm := List.all_eq_true.mp hall m hm
+                simp only [hcm, Bool.and_eq_true, beq_iff_eq, Bool.not_eq_true'] at hallm
+                obtain ⟨vm, hvm, hsm⟩ := h.spec m hmd
+                simp only [hcm] at hsm
+                obtain ⟨a', pd, ha', hpd, hbody⟩ := hsm
+                have : a' = a := by
+                  rw [hcmf, ha] at ha'
+                  simp only [Except.ok.injEq] at ha'
+                  exact ha'.symm
+                subst this
+                obtain ⟨hco, -⟩ := h.cond_other hmd hcm hallm.2 hvm ha' hpd hbody
+                rw [isPresent_of hco]
+                unfold condHolds at hpd
+                simp only [hallm.1, Except.ok.injEq] at hpd
+                rw [← hpd]
+                unfold condValue
+                simp [hcm]
+              rw [List.countP_congr (fun m hm => by rw [hpres m hm])]
+              simp [count_one a _ hdist hany]
+          | _ => simp [hfe] at hdnf
+      | _ => simp [hkd] at hdnf
+
+theorem DedStruct.unions_ok (h : DedStruct S T g fa r name d E vs) (fs : List Field) : ∀ pre,
+    d.fields = pre ++ fs → wfdUnionsFrom S pre fs = true → admUnionsFrom r d vs pre fs = true := by
+  induction fs with
+  | nil => intro _ _ _; rfl
+  | cons f rest ih =>
+    intro pre hsplit hw
+    simp only [wfdUnionsFrom, Bool.and_eq_true] at hw
+    simp only [admUnionsFrom, Bool.and_eq_true]
+    exact ⟨h.union_ok hsplit hw.1, ih (pre ++ [f]) (by rw [hsplit]; simp) hw.2⟩
 
 theorem DedStruct.admMember_ok (h : DedStruct S T g fa r name d E vs) {f : Field} (hf : f ∈ d.fields) :
     admMember g vs f = true := by
@@ -69,7 +207,7 @@ theorem DedStruct.summary (h : DedStruct S T g fa r name d E vs) :
   refine ⟨h.shape, ?_, h.encFrom_ok d.fields (fun _ hf => hf)⟩
   unfold okStruct
   simp only [Bool.and_eq_true, List.all_eq_true]
-  refine ⟨fun f hf => ⟨?_, h.admMember_ok hf⟩, admUnionsFrom_of_early r d vs d.fields [] h.early⟩
+  refine ⟨fun f hf => ⟨?_, h.admMember_ok hf⟩, h.unions_ok d.fields [] (by simp) h.wfdUnions⟩
   obtain ⟨_, _, _, _, hadm, _⟩ := h.cond_ok hf
   exact hadm
 
